@@ -6,7 +6,10 @@
 // ordinary Go.
 package verifrt
 
-import "reflect"
+import (
+	"math"
+	"reflect"
+)
 
 // Failure is one failed Assert recorded during a replay.
 type Failure struct{ Label string }
@@ -150,3 +153,6 @@ func SameRef[T any](a, b T) bool {
 // ForallAny is Forall for axioms about ghost functions: it ranges over every
 // reference, whether allocated yet or not.
 func ForallAny[T any](f func(T) bool) bool { return Forall(f) }
+
+// F64bits is math.Float64bits (an intrinsic of the verifier).
+func F64bits(f float64) uint64 { return math.Float64bits(f) }
